@@ -1,10 +1,857 @@
-//! implementation-side drivers of work package "session" (see docs/AGENT_GUIDE.md)
-#![allow(unused_imports, dead_code)]
+//! implementation-side drivers of work package "session" (C01, C02, C08, C10)
+//!
+//! ss  <scheme> <md5> <st> <op>...   a real client `Session` and a real server `Session` on harness-owned
+//!                                   in-memory transports under tokio virtual time; nothing is wired
+//!                                   together: bytes a side wrote are *relayed* to the peer's reader in a
+//!                                   scripted fragmentation (op X) or raw bytes are injected (op R)
+//! c10 <n> <t:event>...              the real `Client` (connector hook) with n racing opens on one session
+//!                                   against a scripted in-memory peer, virtual time
+//! lo  <front> <scenario> <n> <m>    real-time loopback: application socket -> SOCKS5 / HTTP front-end ->
+//!                                   client session -> (in memory) -> server session + TcpProxyHandler ->
+//!                                   TCP target; half-closes are watched for a bounded 2 s
+//!
+//! The shared payload generator / hash are mirrored in extract/drv_session.ml and tools/props/sessgen.py.
+#![allow(dead_code, unused_imports)]
+use crate::transport::{self, ChanReader, REv, RecWriter, WHandle};
 use crate::util::{hex, unhex};
+use anytls_rs::client::{Client, SessionPool, SessionPoolConfig};
+use anytls_rs::padding::PaddingFactory;
+use anytls_rs::protocol::{Command, Frame, FrameCodec};
+use anytls_rs::server::{StreamHandler, TcpProxyHandler};
+use anytls_rs::session::{Session, Stream};
+use anytls_rs::util::{AnyTlsError, authenticate_client, hash_password};
+use bytes::{Bytes, BytesMut};
+use std::collections::HashMap;
+use std::sync::{Arc, Mutex};
+use tokio::io::{AsyncRead, AsyncReadExt, AsyncWrite, AsyncWriteExt};
+use tokio::net::{TcpListener, TcpStream};
+use tokio::sync::{mpsc, oneshot};
+use tokio::time::{Duration, Instant};
+use tokio_util::codec::{Decoder, Encoder};
+
+const PASSWORD: &str = "verif-session";
+
+type BoxR = Box<dyn AsyncRead + Send + Unpin>;
+type BoxW = Box<dyn AsyncWrite + Send + Unpin>;
+
+fn ms(v: u64) -> Duration {
+    Duration::from_millis(v)
+}
+
+fn paused_rt() -> tokio::runtime::Runtime {
+    tokio::runtime::Builder::new_current_thread()
+        .enable_all()
+        .start_paused(true)
+        .build()
+        .unwrap()
+}
+
+/// with the paused clock a timer only fires once the runtime is otherwise idle: returns after quiescence
+async fn settle() {
+    tokio::time::sleep(ms(1)).await;
+}
+
+pub fn fnv(b: &[u8]) -> u32 {
+    let mut h: u32 = 0x811c9dc5;
+    for x in b {
+        h ^= *x as u32;
+        h = h.wrapping_mul(0x01000193);
+    }
+    h
+}
+
+fn gen_byte(side: char, sid: u32, off: usize) -> u8 {
+    ((sid as usize)
+        .wrapping_mul(37)
+        .wrapping_add(off.wrapping_mul(11))
+        .wrapping_add((off >> 8).wrapping_mul(3))
+        .wrapping_add(if side == 's' { 128 } else { 0 })
+        & 255) as u8
+}
+
+fn genb(side: char, sid: u32, off: usize, len: usize) -> Vec<u8> {
+    (0..len).map(|i| gen_byte(side, sid, off + i)).collect()
+}
+
+fn data_tok(b: &[u8]) -> String {
+    if b.len() <= 64 {
+        format!("d{}", hex(b))
+    } else {
+        format!("d{}.{:08x}", b.len(), fnv(b))
+    }
+}
+
+fn enc(cmd: u8, sid: u32, data: &[u8]) -> Vec<u8> {
+    let mut v = Vec::with_capacity(7 + data.len());
+    v.push(cmd);
+    v.extend_from_slice(&sid.to_be_bytes());
+    v.extend_from_slice(&(data.len() as u16).to_be_bytes());
+    v.extend_from_slice(data);
+    v
+}
+
+// ------------------------------------------------------------------------------------------------ ss
+
+struct Obj {
+    stream: Arc<Stream>,
+    rx: Option<oneshot::Receiver<anytls_rs::util::Result<()>>>,
+    verdict: Option<String>,
+}
+
+struct Side {
+    name: char,
+    sess: Arc<Session>,
+    wh: WHandle,
+    rtx: mpsc::UnboundedSender<REv>,
+    relayed: usize,
+    logged: usize,
+    logbuf: BytesMut,
+    shut_sent: bool,
+    objs: HashMap<u32, Vec<Obj>>,
+    cb_rx: Option<mpsc::UnboundedReceiver<Arc<Stream>>>,
+    news: Vec<u32>,
+    offs: HashMap<u32, usize>,
+}
+
+impl Side {
+    fn next_payload(&mut self, sid: u32, len: usize) -> Vec<u8> {
+        let off = *self.offs.get(&sid).unwrap_or(&0);
+        self.offs.insert(sid, off + len);
+        genb(self.name, sid, off, len)
+    }
+
+    fn drain_callback(&mut self) {
+        if let Some(rx) = self.cb_rx.as_mut() {
+            while let Ok(s) = rx.try_recv() {
+                let id = s.id();
+                self.news.push(id);
+                self.objs.entry(id).or_default().push(Obj {
+                    stream: s,
+                    rx: None,
+                    verdict: None,
+                });
+            }
+        }
+    }
+}
+
+fn synack_class(r: &anytls_rs::util::Result<()>) -> String {
+    match r {
+        Ok(()) => "yo".to_string(),
+        Err(e) => {
+            let m = e.to_string();
+            if let Some(p) = m.rfind("Server error: ") {
+                format!("ye{:08x}", fnv(m[p + "Server error: ".len()..].as_bytes()))
+            } else if m.contains("Session closed") {
+                "yc".to_string()
+            } else {
+                format!("y?{}", m.replace(' ', "_"))
+            }
+        }
+    }
+}
+
+async fn run_ss(args: &[&str]) -> String {
+    let scheme = unhex(args[0]);
+    let st = args[2] == "1";
+    let padding = match PaddingFactory::new(&scheme) {
+        Ok(p) => Arc::new(p),
+        Err(e) => return format!("BADSCHEME {}", e.replace(' ', "_")),
+    };
+    // client side
+    let (cw, cwh) = RecWriter::new(None);
+    let (cr, crtx) = ChanReader::new();
+    let csess = Arc::new(Session::new_client(cr, cw, padding.clone(), None));
+    // server side
+    let (sw, swh) = RecWriter::new(None);
+    let (sr, srtx) = ChanReader::new();
+    let mut ssess = Session::new_server(sr, sw, padding.clone());
+    let (cbtx, cbrx) = mpsc::unbounded_channel::<Arc<Stream>>();
+    ssess.set_stream_callback(cbtx);
+    let ssess = Arc::new(ssess);
+
+    if st {
+        if csess.clone().start_client().await.is_err() {
+            return "START-FAILED".to_string();
+        }
+        csess.disable_buffering();
+    } else {
+        let a = csess.clone();
+        tokio::spawn(async move {
+            let _ = a.recv_loop().await;
+        });
+        let b = csess.clone();
+        tokio::spawn(async move {
+            let _ = b.process_stream_data().await;
+        });
+    }
+    let a = ssess.clone();
+    tokio::spawn(async move {
+        let _ = a.recv_loop().await;
+    });
+    let b = ssess.clone();
+    tokio::spawn(async move {
+        let _ = b.process_stream_data().await;
+    });
+
+    let mut sides = [
+        Side {
+            name: 'c',
+            sess: csess,
+            wh: cwh,
+            rtx: crtx,
+            relayed: 0,
+            logged: 0,
+            logbuf: BytesMut::new(),
+            shut_sent: false,
+            objs: HashMap::new(),
+            cb_rx: None,
+            news: Vec::new(),
+            offs: HashMap::new(),
+        },
+        Side {
+            name: 's',
+            sess: ssess,
+            wh: swh,
+            rtx: srtx,
+            relayed: 0,
+            logged: 0,
+            logbuf: BytesMut::new(),
+            shut_sent: false,
+            objs: HashMap::new(),
+            cb_rx: Some(cbrx),
+            news: Vec::new(),
+            offs: HashMap::new(),
+        },
+    ];
+    settle().await;
+    let idx = |s: &str| if s == "c" { 0usize } else { 1usize };
+    let mut out: Vec<String> = Vec::new();
+    for op in &args[3..] {
+        let p: Vec<&str> = op.split(':').collect();
+        match p[0] {
+            "O" => {
+                let x = &mut sides[idx(p[1])];
+                match x.sess.open_stream().await {
+                    Ok((stream, rx)) => {
+                        let id = stream.id();
+                        x.objs.entry(id).or_default().push(Obj {
+                            stream,
+                            rx: Some(rx),
+                            verdict: None,
+                        });
+                        out.push(format!("o{}", id));
+                    }
+                    Err(_) => out.push("o-".to_string()),
+                }
+            }
+            "W" => {
+                let x = &mut sides[idx(p[1])];
+                let sid: u32 = p[2].parse().unwrap();
+                let d = x.next_payload(sid, p[3].parse().unwrap());
+                let r = x.sess.write_data_frame(sid, Bytes::from(d)).await;
+                out.push(if r.is_ok() { "w+" } else { "w-" }.to_string());
+            }
+            "S" | "A" => {
+                let x = &mut sides[idx(p[1])];
+                let sid: u32 = p[2].parse().unwrap();
+                let k: usize = p[3].parse().unwrap();
+                let d = x.next_payload(sid, p[4].parse().unwrap());
+                let tag = if p[0] == "S" { "s" } else { "a" };
+                match x.objs.get_mut(&sid).and_then(|v| v.get_mut(k)) {
+                    None => out.push(format!("{}-", tag)),
+                    Some(o) => {
+                        if p[0] == "S" {
+                            let r = o.stream.send_data(Bytes::from(d));
+                            out.push(format!("s{}", if r.is_ok() { "+" } else { "-" }));
+                        } else {
+                            match Arc::get_mut(&mut o.stream) {
+                                None => out.push("a!".to_string()),
+                                Some(s) => {
+                                    let r = s.write_all(&d).await;
+                                    out.push(format!("a{}", if r.is_ok() { "+" } else { "-" }));
+                                }
+                            }
+                        }
+                    }
+                }
+            }
+            "H" => {
+                let x = &mut sides[idx(p[1])];
+                let sid: u32 = p[2].parse().unwrap();
+                let k: usize = p[3].parse().unwrap();
+                match x.objs.get_mut(&sid).and_then(|v| v.get_mut(k)) {
+                    None => out.push("h".to_string()),
+                    Some(o) => match Arc::get_mut(&mut o.stream) {
+                        None => out.push("h!".to_string()),
+                        Some(s) => {
+                            let _ = s.shutdown().await;
+                            out.push("h".to_string());
+                        }
+                    },
+                }
+            }
+            "G" => {
+                let x = &mut sides[idx(p[1])];
+                let c: u8 = p[2].parse().unwrap();
+                let sid: u32 = p[3].parse().unwrap();
+                let f = Frame::with_data(Command::from(c), sid, Bytes::from(unhex(p[4])));
+                let r = x.sess.write_control_frame(f).await;
+                out.push(if r.is_ok() { "g+" } else { "g-" }.to_string());
+            }
+            "R" => {
+                let x = &mut sides[idx(p[1])];
+                let _ = x.rtx.send(REv::Data(unhex(p[2])));
+                out.push("r".to_string());
+            }
+            "X" => {
+                let from = idx(p[1]);
+                let to = 1 - from;
+                let sizes: Vec<usize> = if p[2] == "-" {
+                    vec![]
+                } else {
+                    p[2].split(',').map(|s| s.parse().unwrap()).collect()
+                };
+                let all = sides[from].wh.bytes();
+                let mut rest = &all[sides[from].relayed..];
+                let mut i = 0usize;
+                while !rest.is_empty() {
+                    let k = if sizes.is_empty() { 0 } else { sizes[i % sizes.len()] };
+                    i += 1;
+                    let n = if k == 0 { rest.len() } else { k.min(rest.len()) };
+                    let _ = sides[to].rtx.send(REv::Data(rest[..n].to_vec()));
+                    rest = &rest[n..];
+                }
+                sides[from].relayed = all.len();
+                if sides[from].wh.is_shutdown() && !sides[from].shut_sent {
+                    sides[from].shut_sent = true;
+                    let _ = sides[to].rtx.send(REv::Eof);
+                }
+                out.push("x".to_string());
+            }
+            "K" => {
+                let x = &mut sides[idx(p[1])];
+                let k: usize = p[2].parse().unwrap();
+                x.wh.set_max_per_write(if k == 0 { None } else { Some(k) });
+                out.push("k".to_string());
+            }
+            "D" => {
+                let x = &mut sides[idx(p[1])];
+                let sid: u32 = p[2].parse().unwrap();
+                let k: usize = p[3].parse().unwrap();
+                let cap: usize = p[4].parse().unwrap();
+                match x.objs.get(&sid).and_then(|v| v.get(k)) {
+                    None => out.push("x".to_string()),
+                    Some(o) => {
+                        let stream = o.stream.clone();
+                        let mut buf = vec![0u8; cap];
+                        let r = tokio::time::timeout(ms(1), async {
+                            let mut rd = stream.reader().lock().await;
+                            rd.read(&mut buf).await
+                        })
+                        .await;
+                        drop(stream);
+                        out.push(match r {
+                            Err(_) => "p".to_string(),
+                            Ok(Ok(0)) => "e".to_string(),
+                            Ok(Ok(n)) => data_tok(&buf[..n]),
+                            Ok(Err(_)) => "E".to_string(),
+                        });
+                    }
+                }
+            }
+            "T" => {
+                let x = &sides[idx(p[1])];
+                let (a, b) = x.sess.verif_table_sizes().await;
+                out.push(format!("t{}.{}", a, b));
+            }
+            "C" => {
+                let x = &sides[idx(p[1])];
+                let _ = x.sess.close().await;
+                out.push("c".to_string());
+            }
+            "E" => {
+                let x = &sides[idx(p[1])];
+                let _ = x.rtx.send(REv::Eof);
+                out.push("z".to_string());
+            }
+            "Y" => {
+                let x = &mut sides[idx(p[1])];
+                let sid: u32 = p[2].parse().unwrap();
+                let k: usize = p[3].parse().unwrap();
+                match x.objs.get_mut(&sid).and_then(|v| v.get_mut(k)) {
+                    None => out.push("yx".to_string()),
+                    Some(o) => {
+                        if o.verdict.is_none() {
+                            if let Some(rx) = o.rx.as_mut() {
+                                match rx.try_recv() {
+                                    Ok(r) => o.verdict = Some(synack_class(&r)),
+                                    Err(oneshot::error::TryRecvError::Empty) => {}
+                                    Err(oneshot::error::TryRecvError::Closed) => {
+                                        o.verdict = Some("yd".to_string())
+                                    }
+                                }
+                            } else {
+                                o.verdict = Some("yn".to_string());
+                            }
+                        }
+                        out.push(o.verdict.clone().unwrap_or_else(|| "yp".to_string()));
+                    }
+                }
+            }
+            "V" => {
+                let x = &sides[idx(p[1])];
+                out.push(format!("v{}", x.sess.peer_version()));
+            }
+            "Q" => {
+                tokio::time::sleep(ms(p[1].parse().unwrap())).await;
+                out.push("q".to_string());
+            }
+            "L" => {
+                let x = &mut sides[idx(p[1])];
+                let all = x.wh.bytes();
+                x.logbuf.extend_from_slice(&all[x.logged..]);
+                x.logged = all.len();
+                let mut codec = FrameCodec;
+                let mut toks = Vec::new();
+                while let Ok(Some(f)) = codec.decode(&mut x.logbuf) {
+                    if f.cmd == Command::Waste {
+                        continue;
+                    }
+                    toks.push(format!(
+                        "{}.{}.{}.{:08x}",
+                        u8::from(f.cmd),
+                        f.stream_id,
+                        f.data.len(),
+                        fnv(&f.data)
+                    ));
+                }
+                out.push(if toks.is_empty() {
+                    "l-".to_string()
+                } else {
+                    format!("l{}", toks.join(","))
+                });
+            }
+            "N" => {
+                let x = &mut sides[idx(p[1])];
+                x.drain_callback();
+                let l = std::mem::take(&mut x.news);
+                out.push(if l.is_empty() {
+                    "n-".to_string()
+                } else {
+                    format!("n{}", l.iter().map(|v| v.to_string()).collect::<Vec<_>>().join(","))
+                });
+            }
+            _ => out.push(format!("?{}", op)),
+        }
+        settle().await;
+        sides[1].drain_callback();
+    }
+    out.join(" ")
+}
+
+fn ss(args: &[&str]) -> String {
+    let rt = paused_rt();
+    let r = rt.block_on(run_ss(args));
+    rt.shutdown_background();
+    r
+}
+
+// ------------------------------------------------------------------------------------------------ c10
+
+fn new_client(interval_ms: u64, timeout_ms: u64) -> Arc<Client> {
+    let cfg = SessionPoolConfig {
+        check_interval: ms(interval_ms),
+        idle_timeout: ms(timeout_ms),
+        min_idle_sessions: 1,
+    };
+    let tls = anytls_rs::util::tls::create_client_config().unwrap();
+    let connector = Arc::new(tokio_rustls::TlsConnector::from(tls));
+    let name = tokio_rustls::rustls::pki_types::ServerName::try_from("localhost".to_string()).unwrap();
+    Arc::new(Client::with_pool_config(
+        PASSWORD,
+        "127.0.0.1:1".to_string(),
+        name,
+        connector,
+        PaddingFactory::default(),
+        cfg,
+    ))
+}
+
+fn open_class(r: &anytls_rs::util::Result<(Arc<Stream>, Arc<Session>)>) -> String {
+    match r {
+        Ok(_) => "ok".to_string(),
+        Err(e) => {
+            let m = e.to_string();
+            if let Some(p) = m.rfind("Server error: ") {
+                format!("srv.{:08x}", fnv(m[p + "Server error: ".len()..].as_bytes()))
+            } else if m.contains("Session closed") {
+                "closed".to_string()
+            } else if m.contains("SYNACK timeout") {
+                "timeout".to_string()
+            } else if m.contains("SYNACK channel closed") {
+                "chan".to_string()
+            } else {
+                format!("other:{}", m.replace(' ', "_"))
+            }
+        }
+    }
+}
+
+async fn run_c10(args: &[&str]) -> String {
+    let n: usize = args[0].parse().unwrap();
+    let mut evs: Vec<(u64, Vec<String>)> = args[1..]
+        .iter()
+        .map(|e| {
+            let p: Vec<String> = e.split(':').map(|s| s.to_string()).collect();
+            (p[0].parse().unwrap(), p[1..].to_vec())
+        })
+        .collect();
+    evs.sort_by_key(|e| e.0);
+
+    // one scripted peer per connector call; the script talks to the first one
+    let peers: Arc<Mutex<Vec<(WHandle, mpsc::UnboundedSender<REv>)>>> = Arc::new(Mutex::new(Vec::new()));
+    let peers2 = peers.clone();
+    let connector: anytls_rs::client::VerifConnector = Arc::new(move || {
+        let (w, wh) = RecWriter::new(None);
+        let (r, rtx) = ChanReader::new();
+        peers2.lock().unwrap().push((wh, rtx));
+        (Box::new(r) as BoxR, Box::new(w) as BoxW)
+    });
+    let client = new_client(3_600_000, 7_200_000);
+    client.verif_set_connector(Some(connector));
+    let t0 = Instant::now();
+    let sess = match client.create_stream().await {
+        Ok(s) => s,
+        Err(_) => return "NO-SESSION".to_string(),
+    };
+    let pool = client.verif_session_pool();
+    let mut handles = Vec::new();
+    for _ in 0..n {
+        if pool.idle_count().await == 0 {
+            pool.add_idle_session(sess.clone()).await;
+        }
+        let c = client.clone();
+        let h = tokio::spawn(async move {
+            let r = c.create_proxy_stream(("example.com".to_string(), 80)).await;
+            (open_class(&r), Instant::now(), r.ok())
+        });
+        for _ in 0..64 {
+            tokio::task::yield_now().await;
+        }
+        handles.push(h);
+    }
+    let nsessions = peers.lock().unwrap().len();
+    let rtx = peers.lock().unwrap()[0].1.clone();
+    for (t, e) in evs {
+        tokio::time::sleep_until(t0 + ms(t)).await;
+        match e[0].as_str() {
+            "ack" => {
+                let sid: u32 = e[1].parse().unwrap();
+                let _ = rtx.send(REv::Data(enc(7, sid, &unhex(&e[2]))));
+            }
+            "fin" => {
+                let _ = rtx.send(REv::Data(enc(3, e[1].parse().unwrap(), &[])));
+            }
+            "psh" => {
+                let _ = rtx.send(REv::Data(enc(2, e[1].parse().unwrap(), &[1])));
+            }
+            "syn" => {
+                let _ = rtx.send(REv::Data(enc(1, e[1].parse().unwrap(), &[])));
+            }
+            "alert" => {
+                let _ = rtx.send(REv::Data(enc(5, 0, &[120])));
+            }
+            "hb" => {
+                let _ = rtx.send(REv::Data(enc(8, 0, &[])));
+            }
+            "eof" => {
+                let _ = rtx.send(REv::Eof);
+            }
+            "rerr" => {
+                let _ = rtx.send(REv::Err(std::io::ErrorKind::ConnectionReset, "injected reset"));
+            }
+            "close" => {
+                let _ = sess.close().await;
+            }
+            _ => {}
+        }
+    }
+    tokio::time::sleep_until(t0 + ms(65_000)).await;
+    let mut out = Vec::new();
+    let mut keep = Vec::new();
+    for h in handles {
+        if h.is_finished() {
+            match h.await {
+                Ok((class, at, s)) => {
+                    out.push(format!("{}@{}", class, at.duration_since(t0).as_millis()));
+                    keep.push(s);
+                }
+                Err(_) => out.push("panic".to_string()),
+            }
+        } else {
+            h.abort();
+            out.push("hang".to_string());
+        }
+    }
+    if nsessions != 1 {
+        out.push(format!("sessions={}", nsessions));
+    }
+    out.join(" ")
+}
+
+fn c10(args: &[&str]) -> String {
+    let rt = paused_rt();
+    let r = rt.block_on(run_c10(args));
+    rt.shutdown_background();
+    r
+}
+
+// ------------------------------------------------------------------------------------------------ lo
+
+fn real_rt() -> tokio::runtime::Runtime {
+    tokio::runtime::Builder::new_current_thread().enable_all().build().unwrap()
+}
+
+/// in-process server: authenticates, runs a server session with the library's TcpProxyHandler
+fn loop_connector(servers: Arc<Mutex<Vec<Arc<Session>>>>) -> anytls_rs::client::VerifConnector {
+    Arc::new(move || {
+        let (c2s_w, _h1, c2s_r, _tx1) = transport::pipe();
+        let (s2c_w, _h2, s2c_r, _tx2) = transport::pipe();
+        let servers = servers.clone();
+        tokio::spawn(async move {
+            let padding = PaddingFactory::default();
+            let hash = hash_password(PASSWORD);
+            let mut r = c2s_r;
+            if authenticate_client(&mut r, &hash, &padding).await.is_err() {
+                return;
+            }
+            let mut s = Session::new_server(r, s2c_w, padding);
+            let (tx, mut rx) = mpsc::unbounded_channel::<Arc<Stream>>();
+            s.set_stream_callback(tx);
+            let s = Arc::new(s);
+            servers.lock().unwrap().push(s.clone());
+            let s1 = s.clone();
+            tokio::spawn(async move {
+                let _ = s1.recv_loop().await;
+            });
+            let s2 = s.clone();
+            tokio::spawn(async move {
+                let _ = s2.process_stream_data().await;
+            });
+            while let Some(stream) = rx.recv().await {
+                let sess = s.clone();
+                tokio::spawn(async move {
+                    let h = TcpProxyHandler::new();
+                    let _ = h.handle_stream(stream, sess).await;
+                });
+            }
+        });
+        (Box::new(s2c_r) as BoxR, Box::new(c2s_w) as BoxW)
+    })
+}
+
+/// read until EOF, error, `want` bytes (if given) or the deadline; returns (bytes, saw_eof)
+async fn read_some(s: &mut (impl AsyncRead + Unpin), want: Option<usize>, wait: Duration) -> (Vec<u8>, bool) {
+    let deadline = Instant::now() + wait;
+    let mut got = Vec::new();
+    let mut buf = vec![0u8; 16384];
+    loop {
+        if let Some(w) = want {
+            if got.len() >= w {
+                return (got, false);
+            }
+        }
+        match tokio::time::timeout_at(deadline, s.read(&mut buf)).await {
+            Err(_) => return (got, false),
+            Ok(Ok(0)) => return (got, true),
+            Ok(Ok(n)) => got.extend_from_slice(&buf[..n]),
+            Ok(Err(_)) => return (got, true),
+        }
+    }
+}
+
+fn sum_tok(b: &[u8]) -> String {
+    format!("{}.{:08x}", b.len(), fnv(b))
+}
+
+async fn run_lo(args: &[&str]) -> String {
+    let front = args[0];
+    let scenario = args[1];
+    let n: usize = args[2].parse().unwrap();
+    let m: usize = args[3].parse().unwrap();
+    let watch = ms(args.get(4).map(|s| s.parse().unwrap()).unwrap_or(2000));
+
+    let servers: Arc<Mutex<Vec<Arc<Session>>>> = Arc::new(Mutex::new(Vec::new()));
+    let client = new_client(3_600_000, 7_200_000);
+    client.verif_set_connector(Some(loop_connector(servers.clone())));
+
+    // target
+    let target = TcpListener::bind("127.0.0.1:0").await.unwrap();
+    let mut tport = target.local_addr().unwrap().port();
+    let mut target = Some(target);
+    if scenario == "refuse" {
+        // a port nobody listens on: bind, remember, close
+        target = None;
+        let _ = &mut tport;
+    }
+
+    // front-end + application connection
+    let mut app: TcpStream;
+    let mut early: Vec<u8> = Vec::new();
+    if scenario == "pipelined" {
+        early = genb('c', 1, 0, n);
+    }
+    let reply: &str;
+    if front == "socks" {
+        let l = TcpListener::bind("127.0.0.1:0").await.unwrap();
+        let addr = l.local_addr().unwrap();
+        let c2 = client.clone();
+        tokio::spawn(async move {
+            if let Ok((conn, _)) = l.accept().await {
+                let _ = anytls_rs::client::socks5::socks5_verif_hooks::handle_socks5_connection(conn, c2).await;
+            }
+        });
+        app = TcpStream::connect(addr).await.unwrap();
+        app.write_all(&[5, 1, 0]).await.unwrap();
+        let mut g = [0u8; 2];
+        if app.read_exact(&mut g).await.is_err() {
+            return "reply=none".to_string();
+        }
+        let mut req = vec![5u8, 1, 0, 1, 127, 0, 0, 1];
+        req.extend_from_slice(&tport.to_be_bytes());
+        req.extend_from_slice(&early);
+        app.write_all(&req).await.unwrap();
+        let mut rep = [0u8; 10];
+        match tokio::time::timeout(ms(20_000), app.read_exact(&mut rep)).await {
+            Ok(Ok(_)) => reply = if rep[1] == 0 { "ok" } else { "fail" },
+            _ => return "reply=none".to_string(),
+        }
+    } else {
+        // pick a port for the library's own accept loop
+        let probe = TcpListener::bind("127.0.0.1:0").await.unwrap();
+        let addr = probe.local_addr().unwrap();
+        drop(probe);
+        let c2 = client.clone();
+        let a2 = addr.to_string();
+        tokio::spawn(async move {
+            let _ = anytls_rs::client::http_proxy::start_http_proxy_server(&a2, c2).await;
+        });
+        let mut conn = None;
+        for _ in 0..200 {
+            if let Ok(c) = TcpStream::connect(addr).await {
+                conn = Some(c);
+                break;
+            }
+            tokio::time::sleep(ms(10)).await;
+        }
+        app = match conn {
+            Some(c) => c,
+            None => return "front=down".to_string(),
+        };
+        let mut req = format!("CONNECT 127.0.0.1:{} HTTP/1.1\r\nHost: 127.0.0.1:{}\r\n\r\n", tport, tport).into_bytes();
+        // (bytes sent together with a CONNECT request are not part of this driver: C17)
+        early.clear();
+        req.extend_from_slice(&early);
+        app.write_all(&req).await.unwrap();
+        let mut head = Vec::new();
+        let mut b = [0u8; 1];
+        let deadline = Instant::now() + ms(20_000);
+        loop {
+            match tokio::time::timeout_at(deadline, app.read(&mut b)).await {
+                Ok(Ok(1)) => {
+                    head.push(b[0]);
+                    if head.ends_with(b"\r\n\r\n") {
+                        break;
+                    }
+                }
+                _ => break,
+            }
+        }
+        let text = String::from_utf8_lossy(&head).to_string();
+        reply = if text.starts_with("HTTP/1.1 200") {
+            "ok"
+        } else if text.contains(" 502 ") {
+            "fail"
+        } else {
+            "none"
+        };
+    }
+
+    let mut out = vec![format!("reply={}", reply)];
+    // did anything reach the target?
+    let mut tconn: Option<TcpStream> = None;
+    if let Some(t) = target.as_ref() {
+        if let Ok(Ok((c, _))) = tokio::time::timeout(ms(if reply == "ok" { 5000 } else { 300 }), t.accept()).await {
+            tconn = Some(c);
+        }
+    }
+    out.push(format!("tgt_conn={}", if tconn.is_some() { 1 } else { 0 }));
+    if reply != "ok" || tconn.is_none() {
+        // on failure nothing may be forwarded: the application socket is answered and ended
+        let (rest, eof) = read_some(&mut app, None, ms(500)).await;
+        out.push(format!("app_after={}", rest.len()));
+        out.push(format!("app_eof={}", if eof { 1 } else { 0 }));
+        return out.join(" ");
+    }
+    let mut tconn = tconn.unwrap();
+    match scenario {
+        "app_eof" | "pipelined" => {
+            // application -> target: n bytes, then the application half-closes
+            let data = genb('c', 1, 0, n);
+            if scenario == "app_eof" || front != "socks" {
+                app.write_all(&data).await.unwrap();
+            }
+            let _ = app.shutdown().await;
+            let (got, _) = read_some(&mut tconn, Some(n), ms(10_000)).await;
+            out.push(format!("fwd={}", sum_tok(&got)));
+            let (more, eof) = read_some(&mut tconn, None, watch).await;
+            out.push(format!("extra={}", more.len()));
+            out.push(format!("eof={}", if eof { 1 } else { 0 }));
+            // the other direction keeps working
+            let back = genb('s', 1, 0, m);
+            let _ = tconn.write_all(&back).await;
+            let (rev, _) = read_some(&mut app, Some(m), ms(5000)).await;
+            out.push(format!("rev={}", sum_tok(&rev)));
+        }
+        "tgt_eof" => {
+            // target -> application: n bytes, then the target half-closes
+            let data = genb('s', 1, 0, n);
+            tconn.write_all(&data).await.unwrap();
+            let _ = tconn.shutdown().await;
+            let (got, _) = read_some(&mut app, Some(n), ms(10_000)).await;
+            out.push(format!("fwd={}", sum_tok(&got)));
+            let (more, eof) = read_some(&mut app, None, watch).await;
+            out.push(format!("extra={}", more.len()));
+            out.push(format!("eof={}", if eof { 1 } else { 0 }));
+            let back = genb('c', 1, 0, m);
+            let _ = app.write_all(&back).await;
+            let (rev, _) = read_some(&mut tconn, Some(m), ms(5000)).await;
+            out.push(format!("rev={}", sum_tok(&rev)));
+        }
+        _ => {}
+    }
+    // per-stream state still held by both sessions
+    let srv = servers.lock().unwrap().first().cloned();
+    if let Some(s) = srv {
+        let (a, b) = s.verif_table_sizes().await;
+        out.push(format!("srv_tables={}.{}", a, b));
+    }
+    out.join(" ")
+}
+
+fn lo(args: &[&str]) -> String {
+    let rt = real_rt();
+    let r = rt.block_on(run_lo(args));
+    rt.shutdown_background();
+    r
+}
 
 pub fn dispatch(drv: &str, args: &[&str]) -> Option<String> {
-    let _ = args;
     match drv {
+        "ss" => Some(ss(args)),
+        "c10" => Some(c10(args)),
+        "lo" => Some(lo(args)),
         _ => None,
     }
 }
